@@ -25,7 +25,13 @@ type dgen struct {
 	feats map[string]bool
 	seq   int
 	svcLevelErr string
+	prevStar    *starRoute // the last catch-all route of the service being drawn (for sibling routes)
 	focus string // "", "views", "security", "dir" (what generated FILES depend on: several media types per endpoint): biases the draw towards the features a property is about
+}
+
+type starRoute struct {
+	prefix string
+	verbs  map[string]bool
 }
 
 // chance draws true with probability num/den, or hi/den when the generator is focused on topic.
@@ -436,6 +442,8 @@ func (g *dgen) method(svc *spec.Service, idx int) *spec.Method {
 	path := "/" + svc.Name + "/" + m.Name
 	hasBody := false
 	plain := false
+	var pathParams []*spec.Attr
+	lastIsParam := false
 	if t.Draw("payload-not-an-object", 9) == 0 {
 		// the payload is a primitive, an array or a map: it is the whole request body
 		m.Payload = g.nonObject("payload")
@@ -462,8 +470,10 @@ func (g *dgen) method(svc *spec.Service, idx int) *spec.Method {
 				}
 				f.Name, f.Required = name, true
 				path += "/{" + name + "}"
+				pathParams, lastIsParam = append(pathParams, f), true
 				if t.Draw("path-lit", 2) == 0 {
 					path += "/" + []string{"x", "sub", "v1"}[t.Draw("lit", 3)]
+					lastIsParam = false
 				}
 				g.feat("loc:path")
 			case LocQuery, LocHeader:
@@ -529,6 +539,20 @@ func (g *dgen) method(svc *spec.Service, idx int) *spec.Method {
 	} else {
 		g.feat("payload:none")
 	}
+	// a trailing string path parameter may be a catch-all: {*name} takes the rest of the path, slashes included
+	star, sibling, ownPath := false, false, ""
+	if n := len(pathParams); n > 0 && lastIsParam && pathParams[n-1].Type.Kind == spec.String && pathParams[n-1].Val == nil && (t.Draw("catch-all", 2) == 0 || (n == 1 && g.prevStar != nil)) {
+		last := pathParams[n-1].Name
+		path = strings.TrimSuffix(path, "/{"+last+"}") + "/{*" + last + "}"
+		star = true
+		g.feat("loc:path-catch-all")
+		// ... and may share its path with the previous catch-all route of the service, under another verb and
+		// another wildcard name (GET /files/{*path}, PUT /files/{*name})
+		if n == 1 && g.prevStar != nil && t.Draw("catch-all-sibling", 4) != 0 {
+			sibling, ownPath = true, path
+			path = g.prevStar.prefix + "/{*" + last + "}"
+		}
+	}
 	if !plain {
 		g.secure(svc, m, &path)
 	}
@@ -537,6 +561,28 @@ func (g *dgen) method(svc *spec.Service, idx int) *spec.Method {
 		verb = []string{"POST", "PUT", "PATCH"}[t.Draw("verb-body", 3)]
 	} else if t.Draw("verb-nobody", 3) == 0 {
 		verb = []string{"DELETE", "POST"}[t.Draw("verb2", 2)]
+	}
+	if sibling {
+		class := []string{"GET", "DELETE", "POST"}
+		if hasBody {
+			class = []string{"POST", "PUT", "PATCH"}
+		}
+		ok := false
+		for _, v := range append([]string{verb}, class...) {
+			if !g.prevStar.verbs[v] {
+				verb, ok = v, true
+				break
+			}
+		}
+		if ok {
+			g.prevStar.verbs[verb] = true
+			g.feat("loc:path-catch-all-sibling")
+		} else {
+			path, sibling = ownPath, false
+		}
+	}
+	if star && !sibling && len(pathParams) == 1 {
+		g.prevStar = &starRoute{prefix: path[:strings.Index(path, "/{*")], verbs: map[string]bool{verb: true}}
 	}
 	m.Routes = []*spec.Route{{Verb: verb, Path: path}}
 	if t.Draw("second-route", 4) == 0 {
@@ -772,13 +818,18 @@ func GenDesign(t *verifsim.Tape, name, focus string) *spec.Design {
 			g.feat("security:service-level")
 		}
 		g.svcLevelErr = ""
+		g.prevStar = nil
 		if t.Draw("svc-level-error", 3) == 0 {
 			g.svcLevelErr = s.Errors[t.Draw("which-svc-error", len(s.Errors))].Name
 			g.feat("errors:service-level")
 		}
 		nm := 1 + t.Pick("nmethods", 3, 3, 2, 1)
 		for j := 0; j < nm; j++ {
-			s.Methods = append(s.Methods, g.method(s, j))
+			m := g.method(s, j)
+			s.Methods = append(s.Methods, m)
+			if tw := g.catchAllSibling(m); tw != nil {
+				s.Methods = append(s.Methods, tw)
+			}
 		}
 		pool := s.Errors
 		s.Errors = nil // the pool is only declared on the methods that use it ...
@@ -813,6 +864,74 @@ func GenDesign(t *verifsim.Tape, name, focus string) *spec.Design {
 	}
 	sort.Strings(g.d.Features)
 	return g.d
+}
+
+// catchAllSibling returns, for a method whose only path parameter is a catch-all, a second method mounted on the
+// SAME path under another verb with the wildcard named differently (GET /files/{*path}, DELETE /files/{*target}):
+// the usual REST shape, and the one where a router that remembers wildcard names per path mixes them up.
+func (g *dgen) catchAllSibling(m *spec.Method) *spec.Method {
+	r := m.Routes[0]
+	i := strings.Index(r.Path, "/{*")
+	if i < 0 || strings.Count(r.Path, "{") != 1 || m.Payload == nil || m.Payload.Type.Kind != spec.Object || g.t.Draw("catch-all-sibling", 2) != 0 {
+		return nil
+	}
+	old := strings.Trim(r.Path[i+1:], "{*}")
+	var tw spec.Method
+	b, _ := json.Marshal(m)
+	if json.Unmarshal(b, &tw) != nil {
+		return nil
+	}
+	nn := old + "_too"
+	f := tw.Payload.Type.Field(old)
+	if f == nil || tw.Payload.Type.Field(nn) != nil {
+		return nil
+	}
+	f.Name = nn
+	tw.Name = m.Name + "_too"
+	used := map[string]bool{}
+	for _, x := range m.Routes {
+		used[x.Verb] = true
+	}
+	class := []string{"GET", "DELETE", "POST"}
+	if r.Verb == "PUT" || r.Verb == "PATCH" || (r.Verb == "POST" && len(bodyFieldNames(&tw)) > 0) {
+		class = []string{"POST", "PUT", "PATCH"}
+	}
+	verb := ""
+	for _, v := range class {
+		if !used[v] {
+			verb = v
+			break
+		}
+	}
+	if verb == "" {
+		return nil
+	}
+	tw.Routes = []*spec.Route{{Verb: verb, Path: r.Path[:i] + "/{*" + nn + "}"}}
+	g.feat("loc:path-catch-all-sibling")
+	return &tw
+}
+
+// bodyFieldNames lists the payload attributes of m that are not mapped to the path, the query, a header or a cookie.
+func bodyFieldNames(m *spec.Method) []string {
+	var out []string
+	if m.Payload == nil || m.Payload.Type.Kind != spec.Object {
+		return nil
+	}
+	for _, f := range m.Payload.Type.Fields {
+		_, q := m.Params[f.Name]
+		_, h := m.Headers[f.Name]
+		_, c := m.Cookies[f.Name]
+		inPath := false
+		for _, r := range m.Routes {
+			if strings.Contains(r.Path, "{"+f.Name+"}") || strings.Contains(r.Path, "{*"+f.Name+"}") {
+				inPath = true
+			}
+		}
+		if !q && !h && !c && !inPath && f.Sec != "username" && f.Sec != "password" {
+			out = append(out, f.Name)
+		}
+	}
+	return out
 }
 
 // showcase adds, to designs whose generated FILES are what is judged (C09), one method whose payload and
